@@ -89,7 +89,9 @@ class _RoutingFlowControl:
         if elapsed < ROUTING_INDICATION_WAIT_TIME:
             await asyncio.sleep(ROUTING_INDICATION_WAIT_TIME - elapsed)
 
-        await self._ready.wait()
+        # a RoutingBusy may arrive after _ready was set but before this task runs again
+        while not self._ready.is_set():
+            await self._ready.wait()
         yield
         self._last_sent_routing_indication_time = self._loop.time()
 
